@@ -2,7 +2,7 @@
 EXTENDS FrameImpl
 \* small chains: a 12-byte header with three units, a 14-byte header with
 \* a unit larger than the buffer, and a file without data
-MC_Files1 == << [h |-> 12, units |-> << 1, 5, 3 >>] >>
-MC_Files2 == << [h |-> 12, units |-> << 1, 5, 3 >>], [h |-> 14, units |-> << 9, 1 >>] >>
-MC_Files3 == << [h |-> 14, units |-> << 2, 2 >>], [h |-> 12, units |-> << >>], [h |-> 12, units |-> << 7 >>] >>
+MC_Files1 == << << [h |-> 12, units |-> << 1, 5, 3 >>] >> >>
+MC_Files2 == << << [h |-> 12, units |-> << 1, 5, 3 >>], [h |-> 14, units |-> << 9, 1 >>] >> >>
+MC_Files3 == << << [h |-> 14, units |-> << 2, 2 >>], [h |-> 12, units |-> << >>], [h |-> 12, units |-> << 7 >>] >> >>
 =============================================================================
